@@ -739,6 +739,9 @@ func runC06(w *World, r *Report) {
 	r.Rule("C06.passthrough-pairs-sided", "a pass-through node's input / output stream-convert pairs come from one side of the neighbour it is typed from (shared with C04.role-uniform, package compose): an interrupt before such a node in Stream mode saves its pending stream through that pair", 5)
 	ruleRoleUniform(w, r, "C06.passthrough-pairs-sided", "compose")
 
+	shareRule(w, r, "C06.interrupts-all-collected", "waitAll returns only when nothing is outstanding, also when a collected task carries an error: a second interrupting node, or an interrupt-after node finishing later, is in the report and the checkpoint", 2, "C03", "C03.wait-all-drains")
+	shareRule(w, r, "C06.channel-state-restored-whole", "what a checkpoint holds of a channel (values, arrivals, the skipped mark) is all taken over on load: a node the run had decided not to run is not reported as an interrupt-before node after a resume", 8, "C05", "C05.channel-state")
+
 	r.Rule("C06.sentinel-match", "InterruptAndRerun is matched with errors.Is (never ==) wherever the framework classifies a task error", 2)
 	sentinelMatchChecks(w, r, "C06.sentinel-match")
 	_ = strings.Join
